@@ -111,6 +111,37 @@ class FakeNet:
         return [(_socket.AF_INET, _socket.SOCK_STREAM, 6, '', (host, port))]
 
 
+class ConcJson:
+    """json stand-in for text that may carry symbolic characters: the symbolic parts are case-split exhaustively (finite), then the real library runs."""
+    import json as _json
+    JSONDecodeError = _json.JSONDecodeError
+
+    @classmethod
+    def _conc(cls, o):
+        import zx
+        if isinstance(o, dict):
+            return {cls._conc(k): cls._conc(v) for k, v in o.items()}
+        if isinstance(o, (list, tuple)):
+            return [cls._conc(v) for v in o]
+        if isinstance(o, (str, bytes, int, float, bool)) or o is None:
+            return o
+        if isinstance(o, zx.SStr):
+            return zx.shims.concretize_str(o)
+        if isinstance(o, zx.SInt):
+            return zx.cur().concretize(o.z)
+        if isinstance(o, zx.SBool):
+            return bool(o)
+        return o
+
+    @classmethod
+    def dumps(cls, obj, **kw):
+        return cls._json.dumps(cls._conc(obj), **kw)
+
+    @classmethod
+    def loads(cls, s, **kw):
+        return cls._json.loads(cls._conc(s), **kw)
+
+
 class IpShim:
     """ipaddress stand-in for symbolic host text: text without a colon (resp. dot) is never an IPv6 (IPv4) literal - decided by the solver on the
     symbolic characters; anything else is concretised and handed to the real module."""
